@@ -49,7 +49,7 @@ var alphabets = []string{"acdfg", "jknop", "qrsuv", "wxyzb", "ACDEF", "GIJLM", "
 // second stream of a task (stderr written concurrently with stdout): its own alphabet per task
 var alphabets2 = []string{"@%&", "+_-", "^:.", ",|/", "!{}", "`*$", "\"'\\", "XYZ"}
 
-var ansiSeqs = []string{"\x1b[31m", "\x1b[0m", "\x1b[1;32m", "\x1b[38;5;196m", "\x1b[2K", "\x1b[10;20H", "\x1b]0;title\x07", "\x1b[?25l", "\x1b(B", "\x1b[m"}
+var ansiSeqs = []string{"\x1b[31m", "\x1b[0m", "\x1b[1;32m", "\x1b[38;5;196m", "\x1b[2K", "\x1b[10;20H", "\x1b]0;title\x07", "\x1b[?25l", "\x1b(B", "\x1b[m", "\u009b31m", "\u009b1;32m", "\u009b0m", "\u009b38;5;196m"}
 
 type decoStream struct {
 	Task       int      `json:"task"`
@@ -150,6 +150,11 @@ func genStreamAlpha(r *h.Rand, ti int, allowAnsiSplit bool, alpha string, spaces
 			for end < len(data) && inside(end) {
 				end++
 			}
+		}
+		// a write boundary never falls inside the two bytes that encode the one-character introducer U+009B (no
+		// decorator can tell a lone 0xC2 from text; see the assumptions)
+		if end < len(data) && end > 0 && data[end-1] == 0xC2 && data[end] == 0x9B {
+			end++
 		}
 		if end < len(data) && inside(end) {
 			ds.AnsiSplit = true
